@@ -716,9 +716,25 @@ func (st *c35State) report(key, doc, msg string) {
 		st.more[key] = append(st.more[key], doc)
 	}
 	old, ok := st.best[key]
-	if !ok || len(doc) < len(old.doc) || (len(doc) == len(old.doc) && doc < old.doc) {
+	if !ok || c35Simpler(doc, old.doc) {
 		st.best[key] = c35Finding{doc, msg}
 	}
+}
+
+// c35Simpler orders counterexamples: shorter first, then those without control
+// characters, then lexicographically (deterministic whatever the worker
+// interleaving was).
+func c35Simpler(a, b string) bool {
+	if len(a) != len(b) {
+		return len(a) < len(b)
+	}
+	ctl := func(s string) bool {
+		return strings.IndexFunc(s, func(r rune) bool { return r < 0x20 && r != '\n' }) >= 0
+	}
+	if ca, cb := ctl(a), ctl(b); ca != cb {
+		return cb
+	}
+	return a < b
 }
 
 func c35Render(doc string) (out, pan string) {
